@@ -14,17 +14,50 @@ from lib import props  # noqa: E402
 ALL = ["C%02d" % i for i in range(1, 21)]
 
 # per property: (category, level text, level note, technique, design ref)
+TB = ("TLC (tla2tools 1.8.0), the ndjson trace recorder of the harness and std; bounded input spaces: within the exhaustive "
+      "bound every case is covered, beyond it the assurance is that of seeded generation judged by an exact TLA+ acceptor.")
+
 TABLE = {
     "C01": ("model_checking",
-            "Tier-B TLA+ models of Myers / LCS / Patience are explored exhaustively by TLC (every input pair within the bound) "
-            "and checked against the Tier-A hook-protocol specification Script.tla; every behaviour of the models is replayed "
-            "into the real algorithms, and hook-event traces recorded from the real code (exhaustive small pairs, sub-ranges with "
-            "a panicking window lookup, seeded random families) are validated event by event by TLC against Script.tla. "
-            "The verdict comes only from rejected real traces.",
-            "TLC, the JSON trace recorder of the harness, and the bound of the explored input space; beyond the exhaustive "
-            "bound the assurance is that of seeded generation with an exact acceptor.",
-            "TLA+ trace validation (TLC) of recorded hook streams against Script.tla + TLC model checking of Tier-B algorithm models",
+            "Hook-event traces recorded from the real algorithms (exhaustive small pairs, sub-ranges under a lookup that panics "
+            "outside the range, seeded random families) are validated event by event by TLC against the Tier-A hook-protocol "
+            "specification Script.tla (cursor, range, element-wise equality, carried indices within their change run, "
+            "reconstruction, sub-range = shifted slice run). Tier-B TLA+ models of the algorithms are explored exhaustively by TLC "
+            "against the same specification and their behaviours are replayed into the real code. The verdict comes only from "
+            "rejected real traces.", TB,
+            "TLA+ trace validation (TLC) of recorded hook streams against Script.tla; TLC model checking of Tier-B algorithm models",
             "DESIGN.md 5/C01"),
+    "C02": ("model_checking",
+            "Every capture_diff*/TextDiff::ops call of the drivers (all algorithms, entry points, sub-ranges, deadline none / never / "
+            "every expiry index under the virtual clock) is recorded and judged by TLC with the Tier-A predicates Ops!ValidOps, "
+            "ApplyOk, identical-input and ratio clauses; the Tier-B Pipeline/Compact model is explored by TLC over every valid "
+            "script with ValidAlways after every cleanup arm.", TB,
+            "TLA+ trace validation (TLC) of recorded op lists against Ops.tla; TLC model checking of the Compact/Pipeline model",
+            "DESIGN.md 5/C02"),
+    "C03": ("model_checking",
+            "Cost and matched totals of raw callback streams and captured ops of Myers and LCS are compared by TLC with "
+            "N+M-2*LcsLen, LcsLen being an independent fold written in TLA+ (Oracles.tla); the ratio is checked against 2L/(N+M) in "
+            "integer arithmetic. Tier-B Myers/LCS models carry the Minimal invariant.", TB,
+            "TLA+ trace validation (TLC) with an independent LCS oracle in TLA+; TLC model checking of Myers/LCS models",
+            "DESIGN.md 5/C03"),
+    "C09": ("model_checking",
+            "Captured op lists (all algorithms, sub-ranges, every expiry index) and the outputs of Compact+Replace on arbitrary valid "
+            "scripts are judged by TLC with Ops!NormalForm; the Compact model carries the Latest / no-empty invariants over every "
+            "valid input script.", TB,
+            "TLA+ trace validation (TLC) against Ops!NormalForm; TLC model checking of the Compact model",
+            "DESIGN.md 5/C09"),
+    "C11": ("model_checking",
+            "Captured op lists are judged by TLC with Ops!ExactPositions; every case is executed as shipped and with the "
+            "cfg(similar_verif) swap-repair switch on, so that a rejection is attributed mechanically to known finding KF-1 (swap "
+            "arms of compact.rs) or reported as a violation. The Compact model shows ExactAtEnd \\/ swapped invariant, i.e. the swap "
+            "arms are the only cause within the bound.", TB,
+            "TLA+ trace validation (TLC) against Ops!ExactPositions with call-site attribution; TLC model checking of Compact (SwapRepair FALSE/TRUE)",
+            "DESIGN.md 5/C11"),
+    "C15": ("model_checking",
+            "For Patience without deadline, TLC computes K = LCS length of the two lists of common-unique items (Oracles!AnchorOptimum) "
+            "and the number of common-unique items covered by Equal segments, for raw streams and captured ops; covered >= K.", TB,
+            "TLA+ trace validation (TLC) with an anchor-optimum oracle in TLA+; TLC model checking of the Patience model",
+            "DESIGN.md 5/C15"),
 }
 
 
